@@ -260,7 +260,7 @@ func (l *ltWorld) apply(op string, judge bool) (viol []string, digest string, ef
 			break
 		}
 		var fl api.FeatureLocalInterface = ent.FeatureOfTypeAndRole(ltTypes[t], ltRoles[r])
-		fl.AddFunctionType(ltFns[fn], true, rw == "rw")
+		fl.AddFunctionType(ltFns[fn], strings.Contains(rw, "r"), strings.Contains(rw, "w"))
 		if r == "s" {
 			if _, ok := mf.fns[fn]; !ok {
 				mf.fns[fn] = rw
@@ -376,7 +376,9 @@ func c07Alphabet(thorough bool) []string {
 		a = append(a, "addent:"+e, "rment:"+e, "feat:"+e+":lc:s", "feat:"+e+":lc:c", "feat:"+e+":ms:s")
 	}
 	a = append(a, "feat:e1:ms:c", "feat:e1:ec:s", "dupfeat:e1:lc:s", "dupfeat:e1:ec:c",
-		"fn:e1:lc:s:limit:rw", "fn:e1:lc:s:limit:r", "fn:e1:lc:s:limitdesc:r", "fn:e1:ms:s:meas:r", "fn:e1:lc:c:limit:rw", "fn:e2:lc:s:limit:r")
+		"fn:e1:lc:s:limit:rw", "fn:e1:lc:s:limit:r", "fn:e1:lc:s:limitdesc:r", "fn:e1:ms:s:meas:r", "fn:e1:lc:c:limit:rw", "fn:e2:lc:s:limit:r",
+		// every combination of the two flags: write-only and neither
+		"fn:e1:lc:s:limitdesc:w", "fn:e1:ms:s:meas:-")
 	if thorough {
 		a = append(a, "feat:e1:ec:c", "fn:e1:ms:s:measdesc:r", "fn:e1:ec:s:ecdesc:r", "fn:e2:ms:s:meas:rw", "feat:e11:ec:s")
 	}
